@@ -157,9 +157,44 @@ theorem gparams_dThread_hyps {x y z k xs c3 : ℕ} (g : Spec.GParams x y z k xs 
     exact Nat.mul_le_mul_left _ (Nat.le_mul_of_pos_left y hy1)
   omega
 
+variable {σ : Type} {S : SieveOps σ}
+
+/-- `dThread_eq` on Gourdon's parameter domain (`GParams`, `x⋆ = xs`): only the tables, the sieve and the work item remain
+    as hypotheses -/
+theorem dThread_gparams {e : Env} {tmax x y z k xs c3 low segments segSize : ℕ} (g : Spec.GParams x y z k xs c3)
+    (hS : ∀ K, K ≤ π y → ∃ H : SieveSpec S K, H.segOK low segSize)
+    (hE : EnvOK e y) (hF : FactorDOK e tmax y z) (hk : 4 ≤ k) (heven : 2 ∣ low)
+    (hsize : 1 ≤ segSize) (hsegs : 1 ≤ segments) (hlow : low < x / z) :
+    dThread S e x xs (x / z) y z k low segments segSize =
+      .ok (∑ b ∈ Ioc k (π xs), WSD x y z b low (chunkLimit low segments segSize (x / z))) :=
+  dThread_eq hS hE hF (gparams_dThread_hyps g).1 (gparams_dThread_hyps g).2.1 (gparams_dThread_hyps g).2.2
+    hk heven hsize hsegs hlow
+
+/-- one work item covering the whole range `[0, x/z)`: `D_thread` returns Gourdon's `D(x, y, z, k)` -/
+theorem dThread_whole_eq_D {e : Env} {tmax x y z k xs c3 segments segSize : ℕ} (g : Spec.GParams x y z k xs c3)
+    (hS : ∀ K, K ≤ π y → ∃ H : SieveSpec S K, H.segOK 0 segSize)
+    (hE : EnvOK e y) (hF : FactorDOK e tmax y z) (hk : 4 ≤ k)
+    (hsize : 1 ≤ segSize) (hsegs : 1 ≤ segments) (hcover : x / z ≤ segSize * segments) :
+    dThread S e x xs (x / z) y z k 0 segments segSize = .ok (Spec.D x y z k xs) := by
+  have hz0 : 0 < z := by have := g.hyz; have := g.y_pos; omega
+  have hxz : 0 < x / z := lt_of_lt_of_le hz0 ((Nat.le_div_iff_mul_le hz0).2 g.hz)
+  rw [dThread_gparams g hS hE hF hk (dvd_zero 2) hsize hsegs hxz]
+  have hc : chunkLimit 0 segments segSize (x / z) = x / z := by
+    unfold chunkLimit; rw [Nat.zero_add]; exact min_eq_right hcover
+  rw [hc, WSD_total_eq_D g]
+
+/-- consecutive chunks add up (what `LoadBalancerS2` relies on): the windows `[lo, mid)` and `[mid, hi)` -/
+theorem WSD_sum_add (x y z k xs lo mid hi : ℕ) (h1 : lo ≤ mid) (h2 : mid ≤ hi) :
+    ∑ b ∈ Ioc k (π xs), WSD x y z b lo mid + ∑ b ∈ Ioc k (π xs), WSD x y z b mid hi =
+      ∑ b ∈ Ioc k (π xs), WSD x y z b lo hi := by
+  rw [← Finset.sum_add_distrib]
+  exact Finset.sum_congr rfl (fun b _ => WSD_add x y z b lo mid hi h1 h2)
+
 end Pc.Hard
 
 #print axioms Pc.Hard.WD1_eq_Dterm
 #print axioms Pc.Hard.WD2_eq_Dterm
 #print axioms Pc.Hard.WSD_total_eq_D
 #print axioms Pc.Hard.gparams_dThread_hyps
+#print axioms Pc.Hard.dThread_gparams
+#print axioms Pc.Hard.dThread_whole_eq_D
